@@ -210,7 +210,7 @@ class Check:
             tiers = m.get("expect", "proved") == "proved"
             if m.get("expect") == "refuted":
                 steps = ["z3"]
-                to = min(to, 5.0)
+                to = min(to, 3.0)
             obs.append(ob)
             specs.append((to, steps, tiers, bool(dump and re.search(dump, ob.name))))
         t1 = time.time()
